@@ -20,21 +20,22 @@ PROP = dict(
         "MM.C15.C15_holds",
         "MM.C15.C15_beyond",
         "MM.C15.C15_at_limit",
+        "MM.C15.C15_no_wrap",
     ],
     spec=True,
-    rule="cases = random topology (chain/ring/star/clique/tree+extra edges, 2..5 agents, rarely 9..20; thorough up to 7) x random local routes (CIDR v4/v6, domain exact/wildcard, forward; base metrics 0..10 and 65534) x op schedule written while driving the real mesh: bring links up (with/without table replay, before or between deliveries), deliver/duplicate/lose a chosen queued frame, announce, withdraw, expire a cached key, replay a table, stale cleanup; every case drains to quiescence and dumps the whole state. After every op both sides print the acting agent's counter, seen cache, all four tables (metric, sequence, path, last-update tick) and the touched queues (origin, sequence, path, seen-by, routes+metrics). Non-trivial = an op that handled a frame, replayed a table or changed a cache/table. Engine c15 uses hop limits 1..4 (rarely 5, 8, 16) on chains, rings and meshes longer than the limit. spec: no printed table entry has a path longer than the limit, no forwarded frame (seen-by longer than one) carries one. Engine c15w builds config.Default() with routing.max_hops = h, runs the real agent.New and reads the limit the agent's flooder ended up with (must be h), and checks config.Validate's 1..255 range",
+    rule="cases = random topology (chain/ring/star/clique/tree+extra edges, 2..5 agents, rarely 9..20; thorough up to 7) x random local routes (CIDR v4/v6, domain exact/wildcard, forward; base metrics 0..10 and 65534) x op schedule written while driving the real mesh: bring links up (with/without table replay, before or between deliveries), deliver/duplicate/lose a chosen queued frame, announce, withdraw, expire a cached key, replay a table, stale cleanup, lose a connection (disconnect); rare streams: an origin with 256..315 routes (announcements and replays span several advertisements), a reroute case (link behind the next hop disappears while an equally long alternative exists), and a `race` stress op (one announcement handed to a fresh agent by k goroutines at once); every case drains to quiescence and dumps the whole state. After every op both sides print the acting agent's counter, seen cache, all four tables (metric, sequence, path, last-update tick) and the touched queues (origin, sequence, path, seen-by, routes+metrics). Non-trivial = an op that handled a frame, replayed a table or changed a cache/table. Engine c15 uses hop limits 1..4 (rarely 5, 8, 16) on chains, rings and meshes longer than the limit. spec: no printed table entry has a path longer than the limit, no forwarded frame (seen-by longer than one) carries one. Engine c15w builds config.Default() with routing.max_hops = h, runs the real agent.New and reads the limit the agent's flooder ended up with (must be h), and checks config.Validate's 1..255 range",
     nontrivial=lambda op, out: out.startswith(("r=new", "r=seen", "r=drop", "r=ord:", "r=removed")),
     trusted_base=[
         'MM/Model/C11.lean models HandleRouteAdvertise / HandleRouteWithdraw / floodAdvertisementEncrypted / floodWithdrawal / floodFrame / AnnounceLocalRoutes / WithdrawLocalRoutes / SendFullTable / cleanupSeenCache (flood.go), Process*RouteAdvertise / AddLocal*Route / CleanupStale*Routes (manager.go) and the four AddRoute update rules; tied to the code by the differential run (N real Flooder+Manager pairs over a queueing PeerSender)',
         'harness/main/eng_c11.go delivers frames the way Agent.handleRouteAdvertise / handleRouteWithdraw do (DecodeRouteAdvertise / DecodeRouteWithdraw, then HandleRouteAdvertise / HandleRouteWithdraw with the decoded fields); Agent.handlePeerConnected -> SendFullTable is the `replay` op',
         'harness accessors (overlay, add-only): flood.C11ExpireSeen runs the production cleanupSeenCache on one aged entry; routing.C11Stamp rewrites LastUpdate of the entries touched by an op to a logical tick',
-        "lib/floodlib.py: the model takes SendFullTable's origin order from the implementation's answer and checks it is a permutation",
+        "lib/floodlib.py + follow mode: where Go map iteration decides (the origin order and x[0] path choice of SendFullTable, which routes share an advertisement when there are more than 255) the model takes the outcome from the implementation's answer and checks that it is an admissible one (hintOK / groupingOK)",
     ],
     assumptions=[
         'time is a logical clock (one tick per op); seen-cache expiry is an op that may remove any key at any moment (over-approximates the TTL)',
-        'u64 sequence numbers do not wrap; paths and seen-by lists have < 256 entries (one-byte count on the wire); < 256 routes per advertisement (C06)',
+        'u64 sequence numbers do not wrap; the one-byte path / seen-by counts never wrap (theorem C15_no_wrap, with fixes/C15-wire-count-replay.patch); advertisements are split into groups of at most 255 routes like splitRoutes does, its byte budget is never binding for the route encodings used (<= 24 bytes per route)',
         "per-key route lists have <= 12 entries (Go's sort.Slice is a stable insertion sort only up to 12 elements)",
-        'links are only added (stable topology); peer disconnect (route removal per next hop) is outside this model. ROUTE_WITHDRAW (WithdrawLocalRoutes / HandleRouteWithdraw / floodWithdrawal) IS modelled: it shares the seen cache, the loop test and floodFrame with advertisements',
+        'peer disconnect IS modelled (`disconnect`: queued frames lost, RemoveRoutesFromPeer at both ends, as Agent.handlePeerDisconnect does); the C12 path theorems assume a stable topology (no disconnect in the history) as the property does. ROUTE_WITHDRAW (WithdrawLocalRoutes / HandleRouteWithdraw / floodWithdrawal) IS modelled: it shares the seen cache, the loop test and floodFrame with advertisements',
         'plain (non-sealed-box) configuration: paths travel as plaintext EncryptedData, display names ignored',
         'limits above 22 hops are not exercised end to end by the differential run (meshes of at most 22 agents); the theorem covers every limit',
     ],
